@@ -807,6 +807,10 @@ func (x *Exec) evalCall(env *Env, c *Clause, e *Expr) (SymVal, types.Type) {
 		return app(SSlice, "subsl", argT(0), argT(1), argT(2), argT(3)), nil
 	case "nilslice":
 		return NilSl, nil
+	case "strsrc":
+		// strsrc(b): the string a byte slice was converted from ([]byte(s)); unconstrained otherwise
+		need(1)
+		return app(SStr, "strsrc", SlBase(argT(0))), types.Typ[types.String]
 	case "sidx":
 		need(2)
 		return SlIdx(argT(0), argT(1)), intT
